@@ -359,7 +359,13 @@ def rule_alias(c: Ctx) -> RuleResult:
                     if not is_tainted_expr(g, a):
                         continue
                     verdict, how = "discharged", ""
-                    if cs is None or not cs.callees:
+                    callees_ = list(cs.callees) if cs is not None else []
+                    if not callees_ and isinstance(n.func, ast.Attribute) and isinstance(n.func.value, ast.Call) and U(n.func.value.func) == "getattr":
+                        # getattr(obj, <name>).method(...): the method name identifies the callee when only one class defines it
+                        cands_ = [m_ for ci_ in p.classes.values() for nm_, m_ in ci_.methods.items() if nm_ == n.func.attr]
+                        if len(cands_) == 1:
+                            callees_ = cands_
+                    if not callees_:
                         if isinstance(n.func, ast.Name) and n.func.id in ("isinstance", "dict", "list", "len", "bool", "set", "tuple", "sorted", "cast"):
                             how = "builtin that reads / copies"
                         elif isinstance(n.func, ast.Attribute) and n.func.attr in ("get", "items", "keys", "values") :
@@ -367,12 +373,17 @@ def rule_alias(c: Ctx) -> RuleResult:
                         else:
                             verdict, how = "violation", "preset value flows into an unresolved callee"
                     else:
-                        for h in cs.callees:
+                        for h in callees_:
                             params = [x.arg for x in h.node.args.args]
                             pname = None
                             for pn in params:
-                                if c.eff.arg_for_param(cs, h, pn) is a:
+                                if cs is not None and cs.callees and c.eff.arg_for_param(cs, h, pn) is a:
                                     pname = pn
+                            if pname is None and not (cs is not None and cs.callees):
+                                # positional mapping onto the bound method's parameters
+                                idx_ = (list(n.args) + [k.value for k in n.keywords]).index(a)
+                                if idx_ < len(n.args) and idx_ + 1 < len(params):
+                                    pname = params[idx_ + 1]
                             if pname is None:
                                 verdict, how = "violation", f"cannot map the argument onto a parameter of {h.short}"
                                 break
